@@ -474,7 +474,7 @@ theorem gate_neutral (c : SoundCore ℝ) (dtc : ℝ) (info : Info ℝ) (hf : c.p
   obtain ⟨state, fade⟩ := psm
   simp only at hf hs hst
   subst hs hst
-  unfold SoundCore.gate Psm.update
+  unfold SoundCore.gate SoundCore.gateStart SoundCore.gatePsm Psm.update
   simp only [(hf.update tw32 dtc info).1, StartTime.update]
   simp [StartTime.isImmediate, Psm.playbackState, PlaybackState.isAdvancing]
 
@@ -772,7 +772,7 @@ theorem gate_stopped (c : SoundCore ℝ) (dtc : ℝ) (info : Info ℝ) (hf : c.p
   obtain ⟨state, fade⟩ := psm
   simp only at hf hs hst
   subst hs hst
-  unfold SoundCore.gate Psm.update
+  unfold SoundCore.gate SoundCore.gateStart SoundCore.gatePsm Psm.update
   simp only [(hf.update tw32 dtc info).1, StartTime.update]
   simp [StartTime.isImmediate, Psm.playbackState, PlaybackState.isAdvancing]
 
